@@ -230,6 +230,8 @@ def features(case):
                 f.add("consecutive-faults")
             if case["rate"] >= 1 and (k + 1) % case["rate"] == 0:
                 f.add("fault-near-recycle-boundary")
+    if case.get("kill_idle_after"):
+        f.add("idle-worker-killed-by-a-third-party")
     if case.get("probe"):
         f.add("probe:" + case["probe"])
     return f
